@@ -742,3 +742,94 @@ pub fn run_c13(tier: &str, seed: u64) -> i32 {
     }
     rep.finish()
 }
+
+
+/* ---------------------------------------------------------------------------------------- */
+/* C12 corroboration: lifecycle events of the real threaded client                           */
+/* ---------------------------------------------------------------------------------------- */
+
+fn lifecycle_scenario(idx: u64, r: &mut Rng, l: &mut Local) {
+    let v5 = r.chance(2, 3);
+    let hub = Arc::new(Hub { pipes: Mutex::new(Vec::new()), seed: r.next_u64(), v5, plan: Mutex::new(Rng::new(r.next_u64())), refuse_pct: *r.pick(&[0u64, 30, 60]), fault_pct: *r.pick(&[0u64, 30, 60]), inbound: 0 });
+    let mut cs = ConnectSpec::default();
+    cs.client_id = Some("life".into());
+    cs.keep_alive = Some(1200);
+    let hub2 = hub.clone();
+    let factory: Arc<dyn Fn() -> Result<MemStream, GneissError> + Send + Sync> = Arc::new(move || hub2.connect());
+    let mut tb = ThreadedOptions::builder();
+    tb.with_idle_service_sleep(Duration::from_millis(1));
+    let client = new_threaded_client(client_options(r, v5), build_connect_options(&cs), tb.build(), factory);
+    let events: Arc<Mutex<Vec<&'static str>>> = Arc::new(Mutex::new(Vec::new()));
+    let ev2 = events.clone();
+    // the threaded client invokes listeners synchronously on its loop thread: order is meaningful
+    let listener: ClientEventListener = Arc::new(move |ev: Arc<ClientEvent>| {
+        let name = match &*ev { ClientEvent::ConnectionAttempt(_) => "Attempt", ClientEvent::ConnectionSuccess(_) => "Success", ClientEvent::ConnectionFailure(_) => "Failure", ClientEvent::Disconnection(_) => "Disconnection", ClientEvent::Stopped(_) => "Stopped", _ => return };
+        ev2.lock().unwrap().push(name);
+    });
+    let replay = json!({"kind": "real-driver-lifecycle", "driver": "threaded", "index": idx});
+    let mut script = Vec::new();
+    if client.start(Some(listener)).is_err() { return; }
+    script.push("start");
+    let n = r.range(1, 6);
+    let mut last_is_stop = false;
+    for _ in 0..n {
+        std::thread::sleep(Duration::from_micros(r.range(0, 4000)));
+        match r.below(4) {
+            0 => { let _ = client.start(None); script.push("start"); last_is_stop = false; }
+            1 => { let _ = client.stop(None); script.push("stop"); last_is_stop = true; }
+            2 => { let _ = client.stop(Some(StopOptions::builder().with_disconnect_packet(build_disconnect(&DisconnectSpec::default())).build())); script.push("stop-with-disconnect"); last_is_stop = true; }
+            _ => { let _ = client.publish(build_publish(&PublishSpec { topic: "l/c".into(), qos: 1, payload: Some(vec![1, 2, 3]), ..Default::default() }), None); script.push("publish"); }
+        }
+    }
+    l.count("c12.real_threaded_histories");
+    let mut stop_observed = true;
+    if last_is_stop {
+        // corroboration with a generous wall-clock bound; the logical verdict is the simulator's
+        let deadline = Instant::now() + Duration::from_secs(4);
+        stop_observed = false;
+        while Instant::now() < deadline {
+            if events.lock().unwrap().last() == Some(&"Stopped") { stop_observed = true; break; }
+            std::thread::sleep(Duration::from_millis(2));
+        }
+        l.count("c12.real_threaded_stop_waits");
+    }
+    let _ = client.close();
+    std::thread::sleep(Duration::from_millis(5));
+    let evs = events.lock().unwrap().clone();
+    l.add("c12.real_threaded_events", evs.len());
+    // regular language
+    let mut st = 0u8; // 0 idle, 1 await outcome, 2 connected
+    let mut stopped_seen = false;
+    for (i, e) in evs.iter().enumerate() {
+        let ok = match (st, *e) {
+            (0, "Attempt") => { st = 1; true }
+            (1, "Failure") => { st = 0; true }
+            (1, "Success") => { st = 2; true }
+            (2, "Disconnection") => { st = 0; true }
+            (0, "Stopped") => { stopped_seen = true; true }
+            _ => false,
+        };
+        if !ok {
+            l.violation("C12.D1-real-driver-event-stream-malformed", &[("driver", "threaded".into()), ("state", st.to_string()), ("event", e.to_string())], format!("event #{} {} while in state {} (script {:?}, events {:?})", i, e, st, script, &evs[..usize::min(evs.len(), 30)]), replay.clone());
+            break;
+        }
+    }
+    let _ = stopped_seen;
+    if last_is_stop && !stop_observed {
+        l.violation("C12.D2-real-driver-stop-did-not-stop", &[("driver", "threaded".into()), ("last_request", script.last().copied().unwrap_or("").to_string())], format!("no Stopped event within 4 s after the final stop request (script {:?}, events {:?})", script, &evs[..usize::min(evs.len(), 30)]), replay.clone());
+    }
+    l.nontrivial(crate::rng::fnv(format!("{:?}|{:?}", script, evs).as_bytes()));
+    if l.samples.len() < 2 { l.sample(json!({"driver": "threaded", "script": script, "events": evs})); }
+}
+
+pub fn c12_real_driver_report(tier: &str, seed: u64) -> crate::report::Report {
+    let quick = tier != "thorough";
+    let plan = FuzzPlan {
+        id: "C12", level: "exploration", cases: if quick { 1_200 } else { 30_000 },
+        rule: "corroboration on the real threaded client (public API, scripted transport with refused connections and read/write faults): random start / stop / stop-with-DISCONNECT / publish requests with sub-millisecond pauses; the lifecycle events seen by a listener must follow the regular language, and a final stop must be followed by Stopped within a generous wall-clock bound".into(),
+        assumptions: vec!["the wall-clock bound (4 s) is corroboration only; the logical stop rule is the simulator's".into()],
+        gates: vec![("c12.real_threaded_histories", if quick { 800 } else { 20_000 })],
+        budget_s: if quick { 600 } else { 3000 },
+    };
+    cases_report(plan, tier, seed, move |idx, r, l| lifecycle_scenario(idx, r, l))
+}
